@@ -55,7 +55,7 @@ def one(d: str, full: bool, claimed):
         caught, errors, detail = [], [], {}
         tmpo = tempfile.mkdtemp(prefix="verif-seedout-")
         for p in claimed:
-            rc, out = sh(f"/venv/bin/python -m sa.check {p} --root {wt} --out {tmpo}/out --evidence {tmpo}/ev", cwd=VERIF)
+            rc, out = sh(f"/venv/bin/python -m sa.check {p} --root {wt} --out {tmpo}/out --evidence {tmpo}/ev", cwd=os.environ.get("VERIF_SNAP", VERIF))
             if rc == 1:
                 caught.append(p)
                 detail[p] = [l.strip()[:260] for l in out.splitlines() if l.startswith("  R")][:3]
@@ -85,6 +85,11 @@ def table(metas) -> str:
 
 
 def main() -> int:
+    if "VERIF_SNAP" not in os.environ:
+        sys.path.insert(0, os.path.join(VERIF, "tools"))
+        from _snap import snapshot
+
+        os.environ["VERIF_SNAP"] = snapshot()
     from sa.check import CLAIMED
 
     full = "--full" in sys.argv
